@@ -35,7 +35,7 @@ Definition stepobs_eqb (a b : stepobs) : bool :=
   thread_eqb t1 t2 && eqb_list event_eqb e1 e2 && eqb_list emission_eqb m1 m2.
 Definition pstate_eqb (a b : pstate) : bool :=
   match a, b with
-  | PNone, PNone | PRunning, PRunning | PKilled, PKilled => true
+  | PNone, PNone | PRunning, PRunning | PStubborn, PStubborn | PKilled, PKilled => true
   | PExited c1, PExited c2 => c1 =? c2
   | _, _ => false end.
 
